@@ -272,6 +272,7 @@ LN_GROUPS = {
     "ordinary-neg": [-0.999, -0.9, -0.7, -0.5, -0.3, -0.21],
     "ordinary-pos": [0.21, 0.5, 1.0, 2.0, 3.0, 5.0, 6.0, 8.0, 10.0],
     "tail": [-1.001, -1.5, -2.0, -3.0, -5.0, -8.0, -10.0, -20.0, -30.0, -38.0, -40.0],
+    "far-tail": [-1e2, -1e3, -1e4, -1e5, -1e6, -1e8, -1e12],  # phi/Phi ~ |z|: a backward that forms exp(-z^2/2 - log Phi) cancels here
 }
 LN_EDGES = (-1.0, -0.2, 0.2)
 F32_POS = 0x41200000 + 1  # bit patterns of +0.0 .. +10.0
@@ -291,8 +292,11 @@ def ref_ratio(z64):
     """phi(z) / Phi(z) in float64"""
     from scipy.special import log_ndtr
 
+    from scipy.special import erfcx
+
     z = z64.detach().numpy()
-    return torch.from_numpy(np.exp(-0.5 * z * z - 0.5 * math.log(2 * math.pi) - log_ndtr(z)))
+    with np.errstate(over="ignore"):
+        return torch.from_numpy(math.sqrt(2.0 / math.pi) / erfcx(-z / math.sqrt(2.0)))  # stable in both tails
 
 
 def run_lncdf(cell, g, fails, feats):
@@ -334,7 +338,7 @@ def run_lncdf(cell, g, fails, feats):
             zf = z0.reshape(-1)
             with torch.no_grad():
                 fd = (log_normal_cdf((zf + H).reshape(z0.shape)) - log_normal_cdf((zf - H).reshape(z0.shape))).reshape(-1) / (2 * H)
-            away = torch.stack([(zf - e).abs() > 1e-5 for e in LN_EDGES]).all(0)
+            away = torch.stack([(zf - e).abs() > 1e-5 for e in LN_EDGES]).all(0) & (zf.abs() < 1e3)  # FD of values ~ z^2/2 is noise beyond
             err = ((diag - fd).abs() - 1e-9).clamp_min(0) / fd.abs().clamp_min(1e-300)
             err = torch.where(away, err, torch.zeros_like(err))
             err = torch.where(torch.isnan(err), torch.full_like(err, float("inf")), err)
